@@ -358,11 +358,13 @@ def _run(ctx, cuqi, M, thorough, rng, ckpath):
                 elif op == "reinit":
                     s.reinitialize()
                 elif op == "init":
+                    was_init = bool(s._is_initialized)
                     try:
                         s.initialize()
                         out.append("ok")
-                    except ValueError as e:
-                        out.append("E:already" if "already initialized" in str(e) else "E:unset" if "is not set after initialization" in str(e) else "E:?" + str(e)[:40])
+                    except ValueError:
+                        # which refusal it is follows from the situation, not from the wording of the message
+                        out.append("E:already" if was_init else "E:unset")
                 elif op in ("loadtype", "loadpart"):
                     import pickle
                     bad = ckpath + ".bad"
@@ -374,13 +376,10 @@ def _run(ctx, cuqi, M, thorough, rng, ckpath):
                     try:
                         s.load_checkpoint(bad)
                         out.append("ok")
-                    except ValueError as e:
-                        if "does not match the type" in str(e):
-                            out.append("E:type")
-                        elif "not recognized in state dictionary" in str(e):
-                            out.append("E:key")
-                        else:
-                            raise
+                    except ValueError:
+                        if not s._is_initialized:
+                            raise      # `_ensure_initialized()` itself refused (configuration rejected): the op fails as a whole
+                        out.append("E:type" if op == "loadtype" else "E:key")
                 elif isinstance(op, tuple) and op[0] == "b":
                     bdir = clean_batch_dir(ckpath)
                     s.sample(op[1], batch_size=op[2], sample_path=bdir)
@@ -426,7 +425,28 @@ def _run(ctx, cuqi, M, thorough, rng, ckpath):
     ti_cases = [(tf, nb) for tf in TFS + [0.2, 0.15, 0.35, 0.9, 1e-3] for nb in list(range(0, 41)) + [100, 1000, 12345]]
     for tf, nb in ti_cases:
         lines.append(f"ti {q(tf)} {nb}")
+    # Samples.burnthin(Nb, Nt) on the returned object (how the stateful interface discards burn-in) vs `burnthin`
+    bt_cases = [(n, nb, nt) for n in (1, 2, 3, 5, 8, 12) for nb in range(0, n + 2) for nt in (0, 1, 2, 3, 5, n, n + 1)]
+    for n, nb, nt in bt_cases:
+        lines.append(f"bt {n} {nb} {nt}")
     outs = ctx.lean.drive(lines)
+    bt_outs = outs[n_toy + len(ti_cases):]
+    bt_hist = {"kept": 0, "refused": 0}
+    for (n, nb, nt), out in zip(bt_cases, bt_outs):
+        ctx.case("burnthin-tie", {"Ns": n, "Nb": nb, "Nt": nt}, nontrivial=False)
+        try:
+            r_ = cuqi.samples.Samples(np.arange(n, dtype=float).reshape(1, n)).burnthin(nb, nt)
+            impl = ",".join(str(int(v)) for v in np.ravel(r_.samples)) or "_"
+            bt_hist["kept"] += 1
+        except ValueError:
+            impl = "err"; bt_hist["refused"] += 1
+        if impl != out:
+            key = "samples:burnthin"
+            ctx.disagree(key, {"Ns": n, "Nb": nb, "Nt": nt}, out, impl, "Samples.burnthin differs from the model")
+            if out != "err" and impl != "err":
+                # the property on the implementation: the last states once Nb are discarded, every Nt-th, in order
+                ctx.fail(key, {"Ns": n, "Nb": nb, "Nt": nt}, f"indices {list(range(nb, n, nt))}", impl, "burnthin does not return the recorded states after the burn-in, thinned as requested")
+    ctx.extra_cov["burnthin_tie"] = bt_hist
 
     def toy_snapshot(s, events, tunes):
         init = bool(s._is_initialized)
@@ -460,7 +480,7 @@ def _run(ctx, cuqi, M, thorough, rng, ckpath):
             oracle_stateful(ctx, cuqi, key, "Toy", lambda cb, sc=None: Toy(dummy_targets[dim], scale=sco, script=sc, initial_point=np.array(x0o, dtype=np.int64), callback=cb),
                             6, 3, 0.5, ckpath, seed, script_factory=script_f)
             mirror_failure(ctx, key, desc)
-    for (tf, nb), out in zip(ti_cases, outs[n_toy:]):
+    for (tf, nb), out in zip(ti_cases, outs[n_toy:n_toy + len(ti_cases)]):
         ctx.case("tune-interval", {"tune_freq": tf, "Nb": nb}, nontrivial=False)
         want = max(int(tf * nb), 1)
         if out != str(want):
